@@ -104,6 +104,7 @@ def gen_file(r, knobs=None):
 
     # vgroups
     groups = []   # (id, path)
+    parents, links = {}, []   # links: (group, second parent) -- a vgroup that is a member of two parents
     ngroups = r.choice([0, 1, 1, 2, 3, 4])
     for gid in range(ngroups):
         parent = -1
@@ -117,6 +118,17 @@ def gen_file(r, knobs=None):
         attrs(2)
         anns(0.25)
         groups.append((gid, path))
+        parents[gid] = parent
+        if parent >= 0 and r.random() < 0.25:
+            def ancestors(g):
+                out = set()
+                while g >= 0:
+                    out.add(g)
+                    g = parents[g]
+                return out
+            cands = [g[0] for g in groups if g[0] != gid and g[0] != parent and gid not in ancestors(g[0])]
+            if cands:
+                links.append((gid, r.choice(cands)))
 
     def parent_choice():
         if groups and r.random() < 0.5:
@@ -173,18 +185,22 @@ def gen_file(r, knobs=None):
             nbytes *= d
         attrs(native=False)
         for i in range(rank):
-            if r.random() < 0.35:
+            if r.random() < (0.6 if (unl and i == 0) else 0.35):
                 size = 0 if (unl and i == 0) else dims[i]
-                cands = [d for d in dim_pool if d[1] == size]
+                # a record dimension is mostly shared between variables with the same number of records (the scale of
+                # the dimension has one length); rarely with different counts (recorded finding)
+                cands = [d for d in dim_pool if d[1] == size and (size != 0 or d[2] == cur[0] or r.random() < 0.1)]
                 if cands and r.random() < 0.5:
                     dn = r.choice(cands)[0]
                     lines.append("dimname %d %s" % (i, hx(dn)))
                 else:
                     dn = fresh("dim")
                     lines.append("dimname %d %s" % (i, hx(dn)))
-                    dim_pool.append((dn, size))
-                    if r.random() < 0.5 and not (unl and i == 0):
-                        lines.append("dimscale %d %d %d %d" % (i, flav(r, r.choice(NTS)), dims[i], r.randrange(1, 10 ** 6)))
+                    dim_pool.append((dn, size, cur[0]))
+                    # a scale on every kind of dimension, the record (unlimited) dimension included: its scale has one
+                    # value per record written so far
+                    if r.random() < 0.5 and (cur[i] > 0):
+                        lines.append("dimscale %d %d %d %d" % (i, flav(r, r.choice(NTS)), cur[i], r.randrange(1, 10 ** 6)))
                     if r.random() < 0.3:
                         lines.append("dimattr %d %s %d %d %d" % (i, hx(fresh("da")), flav(r, r.choice(NTS), False), r.choice([1, 2, 4]),
                                                                  r.randrange(1, 10 ** 6)))
@@ -242,6 +258,12 @@ def gen_file(r, knobs=None):
         anns(0.3)
         shadow.append(dict(path=ppath + name, kind="vs", rank=0, dims=[], bytes=0, rec=False, empty=False))
 
+    for child, par in links:
+        lines.append("link %d %d" % (child, par))
+    shared_paths = [g[1] for g in groups if g[0] in set(c for c, _ in links)]
+    for o in shadow:
+        if any(o["path"].startswith(sp + "/") for sp in shared_paths):
+            o["nameable"] = False
     for g in groups:
         shadow.append(dict(path=g[1], kind="vg", rank=0, dims=[], bytes=0, rec=False, empty=False))
     for _ in range(r.choice([0, 0, 1, 2])):
@@ -251,8 +273,9 @@ def gen_file(r, knobs=None):
     for kind in ("label", "desc"):
         for _ in range(r.choice([0, 0, 1, 2])):
             lines.append("fann %s %s" % (kind, hx(fresh("file_" + kind) + " text")))
-    if r.random() < (0.04 if has_imgpal else 0.2):
-        lines.append("lonepal %d" % r.randrange(1, 10 ** 6))
+    if r.random() < 0.25:
+        for _ in range(r.choice([1, 1, 2, 3, 4])):
+            lines.append("lonepal %d" % r.randrange(1, 10 ** 6))
     return lines, shadow
 
 
@@ -267,7 +290,9 @@ def rand_comp(r):
 
 def gen_options(r, shadow, invalid=False):
     """-> list of option items ('t', [names], type, info) | ('c', [names], rank, [lens]) | ('m', n)"""
-    objs = [o for o in shadow if o["kind"] in ("sds", "gr")]
+    # objects below a vgroup with two parents have two paths and hrepack knows the one it meets first: such objects are
+    # reached through "*" only
+    objs = [o for o in shadow if o["kind"] in ("sds", "gr") and o.get("nameable", True)]
     items = []
     tmode = r.choice(["none", "sel", "sel", "all"])
     cmode = r.choice(["none", "none", "sel", "sel", "all"])
@@ -431,6 +456,7 @@ def parse_dump(lines):
         else:
             root.C.append("lonepal " + p)
     root.C.append("internal-attribute-vdatas %s" % " ".join(x.get("lone-attr-vdatas", ["?"])))
+    root.C.append("user-vgroups %s" % " ".join(x.get("user-vgroups", ["?"])))
     return root
 
 
@@ -723,6 +749,24 @@ def signature(case, res):
         if t[0] == "sds" and (int(t[2]) & 4096) and any(x.startswith("fill=") and x != "fill=-" for x in t) and \
                 "status" in kinds and "Cannot write attribute _FillValue" in txt:
             return "native-typed-sds-with-fill-value"
+    # record variables with different record counts sharing a named unlimited dimension that has a scale
+    unl, cur_name, cur_recs = {}, None, 0
+    for l in case["script"]:
+        t = l.split()
+        if t[0] == "sds":
+            cur_name = t[1] if t[3] == "1" else None
+            cur_recs = int(([x[5:] for x in t if x.startswith("recs=")] or ["0"])[0])
+            cur_dim0 = None
+        elif t[0] in ("gr", "vs", "vg"):
+            cur_name = None
+        elif t[0] == "dimname" and cur_name is not None and t[1] == "0":
+            cur_dim0 = t[2]
+            unl.setdefault(t[2], {"recs": set(), "scale": False})["recs"].add(cur_recs)
+        elif t[0] == "dimscale" and cur_name is not None and t[1] == "0" and cur_dim0 is not None:
+            unl[cur_dim0]["scale"] = True
+    if any(len(v["recs"]) > 1 and v["scale"] for v in unl.values()) and \
+            ("crash" in kinds or ("content" in kinds and " scale " in txt) or ("status" in kinds and "scale" in txt)):
+        return "record-variables-of-different-length-sharing-a-dimension-scale"
     # record variables sharing a named unlimited dimension, hrepack refusing the dimension name
     unl_dim0, cur = {}, None
     for l in case["script"]:
